@@ -87,3 +87,21 @@ package functional
 //@   modifies nothing
 //@   ensures err == nil ==> result == atomUnder(a, subst)
 
+
+// ---- C07: string built-ins ---------------------------------------------------------------------------------------
+// evalArgs names the constants EvalExprs computes for an argument list under a substitution (EvalExprs is a function
+// of its arguments; assumed, its body is not verified). fn:string:replace(S, Old, New, N) is strings.Replace of the
+// evaluated arguments - for every S, Old, New and N, including an empty Old (Go inserts New between all runes) and a
+// count of zero; fn:name:to_string(N) is the string with the text of the name.
+//@ spec func evalArgs(args []ast.BaseTerm, subst ast.Subst) []ast.Constant
+//@ func EvalExprs(args, subst)
+//@   trusted
+//@   ensures err == nil ==> result == evalArgs(args, subst)
+//@ spec func ea(f ast.ApplyFn, subst ast.Subst, k int) ast.Constant = evalArgs(f.Args, subst)[k]
+//@ func EvalApplyFn(applyFn, subst)
+//@   opt nosafety
+//@   opt elemptr
+//@   opt assumeframe
+//@   ensures applyFn.Function.Symbol == symbols.StringReplace.Symbol && err == nil ==> len(evalArgs(applyFn.Args, subst)) == 4 && result.Type == ast.StringType && result.Symbol == strings.replaced(ea(applyFn, subst, 0).Symbol, ea(applyFn, subst, 1).Symbol, ea(applyFn, subst, 2).Symbol, int(ea(applyFn, subst, 3).NumValue))
+//@   ensures applyFn.Function.Symbol == symbols.StringReplace.Symbol && err == nil ==> ea(applyFn, subst, 0).Type == ast.StringType && ea(applyFn, subst, 1).Type == ast.StringType && ea(applyFn, subst, 2).Type == ast.StringType && ea(applyFn, subst, 3).Type == ast.NumberType
+//@   ensures applyFn.Function.Symbol == symbols.NameToString.Symbol && err == nil ==> len(evalArgs(applyFn.Args, subst)) == 1 && ea(applyFn, subst, 0).Type == ast.NameType && result.Type == ast.StringType && result.Symbol == ea(applyFn, subst, 0).Symbol
